@@ -1,6 +1,7 @@
 package main
 
 import (
+	"errors"
 	"bytes"
 	"encoding/base64"
 	"encoding/binary"
@@ -69,8 +70,15 @@ func newGwRig(dir string, checksOff bool, nsock int) (*gwRig, error) {
 	r := &gwRig{store: st, port: freeUDPPort()}
 	r.fwd = gateway.NewGenericPacketForwarder(r.port, st, ctx)
 	go r.fwd.Start()
-	for i := 0; i < nsock; i++ {
+	for i := 0; i < nsock+2; i++ {
 		c, err := net.ListenUDP("udp", &net.UDPAddr{IP: net.IPv4(127, 0, 0, byte(1+i%4)), Port: 0})
+		if i >= nsock {
+			// two more sockets on the IPv6 loopback (the forwarder listens dual-stack)
+			c, err = net.ListenUDP("udp6", &net.UDPAddr{IP: net.IPv6loopback, Port: 0})
+			if err != nil {
+				break // no IPv6 loopback on this host
+			}
+		}
 		if err != nil {
 			return nil, err
 		}
@@ -110,6 +118,10 @@ func (r *gwRig) close() {
 }
 
 func (r *gwRig) send(sock int, b []byte) {
+	if r.socks[sock].LocalAddr().(*net.UDPAddr).IP.To4() == nil {
+		r.socks[sock].WriteToUDP(b, &net.UDPAddr{IP: net.IPv6loopback, Port: r.port})
+		return
+	}
 	r.socks[sock].WriteToUDP(b, &net.UDPAddr{IP: net.IPv4(127, 0, 0, 1), Port: r.port})
 }
 
@@ -229,6 +241,9 @@ func runGw(c *ctx) error {
 			switch op := r.Intn(12); {
 			case op < 2: // register / update
 				ip := fmt.Sprintf("127.0.0.%d", 1+r.Intn(4))
+				if r.Intn(4) == 0 {
+					ip = []string{"::1", "2001:db8::1234", "fe80::1"}[r.Intn(3)]
+				}
 				strict := r.Intn(2) == 0
 				gw := model.Gateway{GatewayEUI: e, IP: net.ParseIP(ip), StrictIP: strict, Latitude: 1, Longitude: 2, Altitude: 3}
 				var err error
@@ -310,8 +325,19 @@ func runGw(c *ctx) error {
 						rx = "nojson" // whatever JSON is left is cut in the middle
 					}
 				}
+				fault := id == 0 && r.Intn(8) == 0
+				if fault {
+					// the registry lookup of this datagram fails (storage error other than "not found")
+					storage.VerifGate = func(op, key string) error {
+						if op == "GetGateway" {
+							return errors.New("injected: database is locked")
+						}
+						return nil
+					}
+				}
 				rig.send(sock, d)
 				acks, ok := rig.sync(sock, 3*time.Second)
+				storage.VerifGate = nil
 				if !ok {
 					c.res.Add(hx.Finding{Kind: "propfail", Engine: "gw", Signature: "forwarder-stopped", Case: ops, Impl: "no barrier ack within 3 s after " + hx.H(d),
 						Note: "C11/C15: the forwarder stopped answering"})
@@ -336,9 +362,20 @@ func runGw(c *ctx) error {
 					}
 					return strings.Join(x, ",")
 				}
-				leanReqs = append(leanReqs, fmt.Sprintf("gw.dgram %s %d %s %s", rig.sockHost(sock), rig.sockPort(sock), hx.H(d), rx))
+				opn := "gw.dgram"
+				note := ""
+				if fault {
+					opn, note = "gw.dgramfault", "the registry lookup fails with a storage error"
+				}
+				leanReqs = append(leanReqs, fmt.Sprintf("%s %s %d %s %s", opn, rig.sockHost(sock), rig.sockPort(sock), hx.H(d), rx))
 				impl = append(impl, fmt.Sprintf("sent=%s fwd=%s", lt(at), lt(ft)))
-				ops = append(ops, gwOp{Op: "datagram id=" + fmt.Sprint(id), Lean: leanReqs[len(leanReqs)-1]})
+				ops = append(ops, gwOp{Op: "datagram id=" + fmt.Sprint(id), Lean: leanReqs[len(leanReqs)-1], Note: note})
+				if fault {
+					c.res.Count("lookup-fault")
+				}
+				if strings.Contains(rig.sockHost(sock), ":") {
+					c.res.Count("ipv6-sender")
+				}
 			default: // downlink
 				clock := r.Uint32()
 				if r.Intn(2) == 0 {
